@@ -1,11 +1,15 @@
 //! dsim-graph: deterministic simulation scenarios over the in-tree dasp_graph + petgraph.
 mod glike;
+mod galloc;
 mod graph;
 mod nodes;
 
 use simcore::Scenario;
 
+#[global_allocator]
+static GLOBAL: simcore::alloc::CountingAlloc = simcore::alloc::CountingAlloc;
+
 fn main() {
-    let scens: Vec<&dyn Scenario> = vec![&graph::GraphScenario, &nodes::NodesScenario];
+    let scens: Vec<&dyn Scenario> = vec![&graph::GraphScenario, &nodes::NodesScenario, &galloc::GraphAllocScenario];
     simcore::cli::main(&scens)
 }
